@@ -114,6 +114,14 @@ theorem amountOf_nonneg {cs : Coins} (h : Nonneg cs) (d : Denom) : 0 ≤ amountO
   | none => simp
   | some c => exact h c (List.mem_of_find?_eq_some hf)
 
+theorem amountOf_of_isZero {cs : Coins} (h : isZero cs = true) (d : Denom) : amountOf cs d = 0 := by
+  unfold amountOf
+  cases hf : cs.find? (·.denom = d) with
+  | none => rfl
+  | some c =>
+    have := List.all_eq_true.mp h c (List.mem_of_find?_eq_some hf)
+    simpa using this
+
 theorem nonneg_nil : Nonneg [] := by intro c hc; simp at hc
 
 end Hub.SDK.Coins
